@@ -40,6 +40,7 @@ type Gen struct {
 	CustomGasPct int // percentage of txs paying commission in a custom coin
 	MultisigPct  int
 	Recent       [][]byte // recently delivered raw txs (for replay stream)
+	FailedRun    [][]byte // delivered txs that passed the RunTx prologue but failed inside Run (failure fee charged, nonce unchanged): C26 replays
 	NearVotes    bool
 }
 
@@ -830,8 +831,11 @@ func (g *Gen) malformed(height uint64) *GenTx {
 		gt := g.rebuild(base, func(t *tx.Transaction) { t.ChainID = types.ChainID(1 + g.rint(4)) })
 		gt.Note = "malformed:chain"
 		return gt
-	case 5: // replay a recent tx
-		if len(g.Recent) > 0 {
+	case 5: // replay a recent tx; half of the time one that failed inside Run (C26: is its payer charged again?)
+		if len(g.FailedRun) > 0 && g.rint(2) == 0 {
+			base.Raw = g.FailedRun[g.rint(len(g.FailedRun))]
+			base.Note = "malformed:replay-failed"
+		} else if len(g.Recent) > 0 {
 			base.Raw = g.Recent[g.rint(len(g.Recent))]
 			base.Note = "malformed:replay"
 		}
